@@ -156,7 +156,9 @@ pub fn run(ctx: &Ctx) -> Outcome {
         for fe in block_frontends(cfg, fam, *dir) {
             let g = fe.gran;
             let pre = dirty(ndata * g + 2 * g);
-            for (ivn, iv) in iv_variants(seed, iv_len).into_iter().skip(tier.pick(2, 1)) {
+            // counter modes also get the all-ones IV in the quick tier: the counter field wraps inside the first batches
+            let iv_skip = if fam.starts_with("ctr") || *fam == "belt" { 1 } else { tier.pick(2, 1) };
+            for (ivn, iv) in iv_variants(seed, iv_len).into_iter().skip(iv_skip) {
                 for (dn, data) in data_variants(seed, 0xC07, (ndata + 2) * g).into_iter().skip(tier.pick(2, 1)) {
                     let want = fam_ref(cfg, fam, *dir, key, &iv, &data, g);
                     rep.outcome(&want.out);
